@@ -12,12 +12,14 @@ PROPERTY = "C14"
 P = {}
 FUNCTIONS_ENCODED = ["ThreadingApplication._wait_for_recv_msg / _wait_for_resp_msg / _process_recv_msg (thread bodies run as calls)",
                      "Application.send_answer/generate_answer", "Node.route_answer/send_message", "Node._handle_connections (recv/send error branches, zero read)",
-                     "PeerConnection.work_read_queue / work_write_queue", "Node.receive_cer", "Node._receive_app_request"]
+                     "PeerConnection.work_read_queue / work_write_queue", "Node.receive_cer", "Node._receive_app_request",
+                     "races (cooperative transform, harness/race.py): Node._handle_connections, close_connection_socket, remove_peer_connection, _receive_message, receive_cea, receive_cer, _assign_peer_connection, _flag_connection_as_ready; PeerConnection.__dispatch_message (real gate)",
+                     "reader_survives: PeerConnection.__dispatch_message + Node._receive_message for 18 message kinds"]
 ASSUMPTIONS = ["a thread is its body function: a body that ends by an exception IS the thread dying", "handler threads run when the harness schedules them (between the steps of the scenario)",
                "Queue.put(timeout=5) on the slot queue -> non-blocking (Full = the 5 s timeout)"]
-BOUNDS = {"quick": "threading application: 2 requests with handler outcomes in {answer, None, raises, thread cannot be started} each, thread limit 0..2, connection loss before/after the handler for each request; I/O faults: {orderly close, reset, read error, write error} at {inside the CER header, mid-body, after the CER, while the CEA is being written, mid-request}; each followed by a reconnect-and-serve probe of limit+2 requests",
-          "thorough": "3 requests"}
-OUTSIDE = ["faults at every single byte offset (offsets grouped in classes)", "3 consecutive faults", "'slow' handlers", "OS-level preemption inside worker loops"]
+BOUNDS = {"quick": "threading application: 2 requests with handler outcomes in {answer, None, raises, thread cannot be started} each, thread limit 0..2, connection loss before/after the handler for each request; I/O faults: {orderly close, reset, read error, write error} at {inside the CER header, mid-body, after the CER, while the CEA is being written, mid-request}; each followed by a reconnect-and-serve probe of limit+2 requests; reader survives one decoded message of 18 kinds x 5 defects x 7 states; races reader x I/O thread (error CEA then EOF / CER then EOF / CER of a stranger then EOF): every placement of 1 preemption, and of 2 preemptions with the first in steps 0..29 of <= 90",
+          "thorough": "3 requests; races with every placement of 2 preemptions"}
+OUTSIDE = ["races: 3+ preemptions, preemption inside a statement that does not mention shared state, the write worker as a third thread, accept()/EMFILE and other resource-exhaustion faults of the listener", "faults at every single byte offset (offsets grouped in classes)", "3 consecutive faults", "'slow' handlers", "OS-level preemption inside worker loops"]
 PEER = B.PEER_HOSTS[0]
 
 
@@ -261,6 +263,13 @@ def specs(tier, seed, carve):
     out = [dict(id="reader_survives/state%d" % st, fn="reader_survives", params={"st": st}, timeout=900,
                 bound="connection state %d: one decoded message of 18 kinds (typed/untyped requests and answers, incl. repeated Origin-Host) x 5 defect classes x handler raises/returns" % st)
            for st in range(7)]
+    for kind in RACES:
+      for slots in (1, 2):
+        ms = RACE_STEPS[kind]
+        width = ms if slots == 1 else 10
+        for lo in range(0, ms if (slots == 1 or not q) else 30, width):
+            out.append(dict(id="race/%s/p%d/%d" % (kind, slots, lo), fn="race", params={"race": kind, "slots": slots, "maxstep": ms, "lo": lo, "hi": min(ms, lo + width)}, timeout=1500 if q else 8000,
+                            bound=("first preemption at step %d..%d; " % (lo, min(ms, lo + width) - 1)) + "%s: the connection's read thread (real gate, _receive_message, receive_cea/receive_cer, close_connection_socket, remove_peer_connection as cooperative generators) against the I/O thread (_handle_connections) - every placement of %d preemption(s) over the statements touching shared state" % (kind, slots)))
     for nreq in ((1, 2) if q else (1, 2, 3)):
       for limit in (0, 1, 2):
         out.append(dict(id="threading_app/%d/limit%d" % (nreq, limit), fn="threading_app", params={"nreq": nreq, "limit": limit}, timeout=900 if nreq < 3 else 6000,
@@ -269,3 +278,75 @@ def specs(tier, seed, carve):
         out.append(dict(id="io_fault/" + fn_, fn="io_fault", params={"fault": fi}, timeout=900,
                         bound="fault %s x cut point %s x optional second fault of any kind, then a reconnect-and-serve probe through the real I/O loop" % (fn_, POINTS)))
     return out
+
+
+# ----------------------------------------------------------------------------- C. reader thread x I/O thread races on one connection
+RACES = ["cea_reject", "cer_then_gone", "cer_unknown_then_gone"]
+RACE_STEPS = {"cea_reject": 90, "cer_then_gone": 90, "cer_unknown_then_gone": 80}
+
+
+def race(sched: List[int], tgt: List[int]) -> bool:
+    """
+    pre: len(sched) == P["slots"] and len(tgt) == P["slots"] and all(0 <= s < P["maxstep"] for s in sched)
+    pre: all(sched[i] < sched[i + 1] for i in range(len(sched) - 1)) and all(0 <= x <= 1 for x in tgt)
+    pre: P["lo"] <= sched[0] < P["hi"]
+    post: _
+    """
+    hx.begin()
+    from harness import race as R
+    kind = P["race"]
+    inputs = (sched, tgt)
+    why = ""
+    # the schedule is the only symbolic input: fix it (one solver-decided branch per bisection step), then the two threads
+    # run natively under exactly that schedule
+    sched_c = [hx.concretize_range(x, 0, P["maxstep"]) for x in sched]
+    tgt_c = [hx.concretize_range(x, 0, 2) for x in tgt]
+    try:
+      with hx.untraced():
+          b = B.Bench(n_peers=1)
+          n, p, app = b.node, b.peers[0], b.apps[0]
+          if kind == "cea_reject":
+              # our CER is answered with an error CEA and the peer closes at once
+              c = b.dial(p, "ok")
+              B.drain(c)
+              s = n.peer_sockets[c.ident]
+              s.__class__ = R.StrictSock
+              s.inq = [B.cea(PEER, result=5010, hbh=11, e2e=12).as_bytes(), b""]
+          else:
+              # a CER arrives and the peer closes at once
+              c, s = b.accept()
+              s.__class__ = R.StrictSock
+              origin = PEER if kind == "cer_then_gone" else "stranger.local.realm"
+              s.inq = [B.cer(origin, hbh=11, e2e=12).as_bytes(), b""]
+          WORLD.pipe.clear()
+          io_death, reader_death = R.run_race(n, c, sched_c, tgt_c, lambda v, lo, hi: v)
+          if io_death:
+              why = "the node's I/O thread died: " + io_death
+          elif reader_death:
+              why = "the connection's read thread died: " + reader_death
+          elif c.ident in n.connections or not s.closed:
+              why = "the lost connection is still registered / its socket open"
+          elif p.connection is not None and p.connection.ident not in n.connections:
+              why = "Peer.connection points at a removed connection (state %#x)" % p.connection.state
+          elif app.is_ready.is_set():
+              why = "application still flagged ready without any connection"
+          else:
+              why = _probe_simple(b)
+    except Exception as e:
+        why = "harness: %s: %s" % (type(e).__name__, str(e)[:100])
+    return hx.check(inputs, (why,), ("",), "a thread died or the node is not as good as new after the connection was lost during the handshake")
+
+
+def _probe_simple(b):
+    """a peer that connects afterwards completes its CER/CEA and has a request delivered"""
+    n, app = b.node, b.apps[0]
+    c, s = b.accept()
+    b.inject(c, B.cer(PEER, hbh=9001, e2e=9001))
+    out = B.summarize(B.drain(c))
+    if [(x[1], x[5]) for x in out] != [(257, 2001)]:
+        return "probe CER answered %r" % (out,)
+    before = len(app.requests)
+    b.inject(c, B.ccr(PEER, 9100, 9100))
+    if len(app.requests) != before + 1:
+        return "probe request not delivered"
+    return ""
